@@ -327,3 +327,259 @@ Proof.
   - rewrite alookup_aremove; rewrite alookup_aremove. sdg; [tauto|apply (wf_t2l_dom _ W)].
   - rewrite alookup_aremove in H. sdh; [discriminate|]. apply (wf_t2l _ W); auto.
 Qed.
+
+(* ================================================================== API level *)
+Record WFapi (a : apiset) : Prop := mkWFapi {
+  wa_ast : WF (a_ast a);
+  (* `policies` is exactly the core set's `links` *)
+  wa_pol : forall i, alookup i (a_policies a) = alookup i (ps_links (a_ast a));
+  (* `templates` is exactly the core set's templates that have slots *)
+  wa_tpl : forall i, alookup i (a_templates a) =
+      match alookup i (ps_templates (a_ast a)) with
+      | Some t => if t_is_static t then None else Some t
+      | None => None
+      end
+}.
+
+Lemma WFapi_empty : WFapi empty_api.
+Proof. constructor; [exact WF_empty | reflexivity | reflexivity]. Qed.
+
+Lemma p_static_link p : p_is_static p = true -> plink p = None.
+Proof. unfold p_is_static. destruct (plink p); [discriminate|reflexivity]. Qed.
+
+Lemma api_add_WF a p a' :
+  WFapi a -> good_policy p -> api_add a p = OOk a' -> WFapi a'.
+Proof.
+  intros [W P T] G H. unfold api_add in H.
+  destruct (p_is_static p) eqn:Ps; [|discriminate]. apply p_static_link in Ps.
+  destruct (ps_add (a_ast a) p) as [s'|] eqn:E; [|discriminate]. inversion H; subst; clear H.
+  pose proof (ps_add_WF _ _ _ W Ps G E) as W'.
+  unfold ps_add in E. rewrite (static_pid _ Ps) in *.
+  destruct (alookup (tid (ptemplate p)) (ps_templates (a_ast a))) as [t'|] eqn:ET.
+  - exfalso. destruct (template_eqb t' (ptemplate p)) eqn:EQ; cbn in E; [|discriminate].
+    destruct (amem (tid (ptemplate p)) (ps_links (a_ast a))) eqn:EL; [discriminate|]. apply amem_false in EL.
+    apply template_eqb_static in EQ. destruct G as [_ G]. unfold p_is_static in G. rewrite Ps in G.
+    rewrite G in EQ. exact (wf_static_tpl _ W _ _ ET EQ EL).
+  - destruct (amem (tid (ptemplate p)) (ps_links (a_ast a))) eqn:EL; [discriminate|].
+    inversion E; subst s'; clear E.
+    constructor; cbn [a_ast a_policies a_templates ps_links ps_templates]; [exact W'| |]; intros i.
+    + rewrite !alookup_ainsert, P. reflexivity.
+    + rewrite alookup_ainsert, T. sdg; seq; [|reflexivity].
+      rewrite ET. destruct G as [_ G]. unfold p_is_static in G. rewrite Ps in G. rewrite G. reflexivity.
+Qed.
+
+Lemma api_add_template_WF a t a' :
+  WFapi a -> t_is_static t = false -> api_add_template a t = OOk a' -> WFapi a'.
+Proof.
+  intros [W P T] St H. unfold api_add_template in H.
+  destruct (ps_add_template (a_ast a) t) as [s'|] eqn:E; [|discriminate]. inversion H; subst; clear H.
+  pose proof (ps_add_template_WF _ _ _ W St E) as W'.
+  unfold ps_add_template in E.
+  destruct (amem (tid t) (ps_links (a_ast a))); [discriminate|].
+  destruct (amem (tid t) (ps_templates (a_ast a))); [discriminate|].
+  inversion E; subst s'; clear E.
+  constructor; cbn [a_ast a_policies a_templates ps_links ps_templates]; [exact W'| |]; intros i.
+  - apply P.
+  - rewrite !alookup_ainsert, T. sdg; [rewrite St|]; reflexivity.
+Qed.
+
+Lemma api_link_WF a tmpl new env a' :
+  WFapi a -> api_link a tmpl new env = OOk a' -> WFapi a'.
+Proof.
+  intros [W P T] H. unfold api_link in H.
+  destruct (alookup tmpl (a_templates a)) as [t0|] eqn:EA; [|destruct (amem tmpl (a_policies a)); discriminate].
+  destruct (ps_link (a_ast a) tmpl new env) as [s'|] eqn:E; [|discriminate].
+  assert (Hns : forall t, alookup tmpl (ps_templates (a_ast a)) = Some t -> t_is_static t = false).
+  { intros t Ht. rewrite T, Ht in EA. destruct (t_is_static t); [discriminate|reflexivity]. }
+  pose proof (ps_link_WF _ _ _ _ _ W Hns E) as W'.
+  unfold ps_link in E.
+  destruct (alookup tmpl (ps_templates (a_ast a))) as [t|] eqn:ET; [|discriminate].
+  destruct (check_binding t env); cbn in E; [|discriminate].
+  destruct (amem new (ps_links (a_ast a))); [discriminate|].
+  destruct (amem new (ps_templates (a_ast a))); [discriminate|].
+  inversion E; subst s'; clear E. cbn [ps_links] in H. rewrite alookup_ainsert, str_eqb_refl in H.
+  inversion H; subst a'; clear H.
+  constructor; cbn [a_ast a_policies a_templates ps_links ps_templates]; [exact W'| |]; intros i.
+  - rewrite !alookup_ainsert, P. reflexivity.
+  - apply T.
+Qed.
+
+Lemma api_unlink_WF a i a' p :
+  WFapi a -> api_unlink a i = OOk (a', p) -> WFapi a' /\ good_policy p.
+Proof.
+  intros [W P T] H. unfold api_unlink in H.
+  destruct (alookup i (a_policies a)) as [p0|] eqn:EP; [|discriminate].
+  destruct (ps_unlink (a_ast a) i) as [[s' q]|e] eqn:E; [|destruct e; discriminate].
+  inversion H; subst; clear H.
+  pose proof (ps_unlink_WF _ _ _ _ W E) as W'.
+  rewrite P in EP. destruct (wf_link _ W _ _ EP) as [_ [_ G]]. split; [|exact G].
+  unfold ps_unlink in E.
+  destruct (amem i (ps_templates (a_ast a))); [discriminate|]. rewrite EP in E.
+  destruct (alookup (tid (ptemplate p)) (ps_t2l (a_ast a))); [|discriminate].
+  inversion E; subst s' q; clear E.
+  constructor; cbn [a_ast a_policies a_templates ps_links ps_templates]; [exact W'| |]; intros j.
+  - rewrite !alookup_aremove, P. reflexivity.
+  - apply T.
+Qed.
+
+Lemma api_remove_static_WF a i a' p :
+  WFapi a -> api_remove_static a i = OOk (a', p) -> WFapi a' /\ good_policy p.
+Proof.
+  intros [W P T] H. unfold api_remove_static in H.
+  destruct (alookup i (a_policies a)) as [p0|] eqn:EP; [|discriminate].
+  destruct (ps_remove_static (a_ast a) i) as [[s' q]|e] eqn:E; [|discriminate].
+  inversion H; subst; clear H.
+  pose proof (ps_remove_static_WF _ _ _ _ W E) as W'.
+  rewrite P in EP. destruct (wf_link _ W _ _ EP) as [Hpid [HT G]]. split; [|exact G].
+  unfold ps_remove_static in E. rewrite EP in E.
+  destruct (amem i (ps_templates (a_ast a))) eqn:ET; [|discriminate]. apply amem_true in ET.
+  inversion E; subst s' q; clear E.
+  pose proof (wf_disj _ W _ _ EP ET) as Hs. rewrite (static_pid _ Hs) in Hpid.
+  constructor; cbn [a_ast a_policies a_templates ps_links ps_templates]; [exact W'| |]; intros j.
+  - rewrite !alookup_aremove, P. reflexivity.
+  - rewrite alookup_aremove, T. sdg; seq; [|reflexivity].
+    rewrite HT. destruct G as [_ G]. unfold p_is_static in G. rewrite Hs in G. rewrite G. reflexivity.
+Qed.
+
+Lemma api_remove_template_WF a i a' :
+  WFapi a -> api_remove_template a i = OOk a' -> WFapi a'.
+Proof.
+  intros [W P T] H. unfold api_remove_template in H.
+  destruct (alookup i (a_templates a)) as [t0|] eqn:EA; [|discriminate].
+  destruct (ps_remove_template (a_ast a) i) as [s'|e] eqn:E; [|destruct e; discriminate].
+  inversion H; subst; clear H.
+  pose proof (ps_remove_template_WF _ _ _ W E) as W'.
+  unfold ps_remove_template in E.
+  destruct (amem i (ps_links (a_ast a))); [discriminate|].
+  destruct (alookup i (ps_t2l (a_ast a))) as [[|]|]; try discriminate.
+  destruct (amem i (ps_templates (a_ast a))); [|discriminate].
+  inversion E; subst s'; clear E.
+  constructor; cbn [a_ast a_policies a_templates ps_links ps_templates]; [exact W'| |]; intros j.
+  - apply P.
+  - rewrite !alookup_aremove, T. sdg; reflexivity.
+Qed.
+
+(* ------------------------------------------------------------------ steps and histories *)
+Definition Hinv (h : hstate) : Prop := WFapi (h_api h) /\ Forall good_policy (h_stash h).
+
+Definition no_merge (o : op) : Prop :=
+  match o with OpMergeApi _ _ | OpMergeAst _ _ => False | _ => True end.
+
+Lemma Hinv_empty : Hinv empty_h.
+Proof. split; [exact WFapi_empty | constructor]. Qed.
+
+Lemma nth_good k (l : list policy) p0 : Forall good_policy l -> In p0 l -> good_policy (nth k l p0).
+Proof.
+  intros F Hin. rewrite Forall_forall in F. destruct (Nat.lt_ge_cases k (length l)) as [Hlt|Hge].
+  - apply F, nth_In, Hlt.
+  - rewrite nth_overflow by exact Hge. apply F, Hin.
+Qed.
+
+Lemma api_step_Hinv h o h' r :
+  Hinv h -> no_merge o -> api_step h o = (h', r) -> Hinv h'.
+Proof.
+  intros [WA FS] NM H. destruct o; cbn [api_step] in H; try contradiction.
+  - (* add *) destruct (t_is_static t) eqn:St; [|inversion H; subst; split; assumption].
+    destruct (api_add (h_api h) (static_of t)) eqn:E; inversion H; subst; [|split; assumption].
+    split; [|exact FS]. eapply api_add_WF; eauto using good_static_of.
+  - destruct (t_is_static t) eqn:St; [|inversion H; subst; split; assumption].
+    destruct (api_add (h_api h) (static_of t)) eqn:E; inversion H; subst; [|split; assumption].
+    split; [|exact FS]. eapply api_add_WF; eauto using good_static_of.
+  - (* add_template *) destruct (t_is_static t) eqn:St; [inversion H; subst; split; assumption|].
+    destruct (api_add_template (h_api h) t) eqn:E; inversion H; subst; [|split; assumption].
+    split; [|exact FS]. eapply api_add_template_WF; eauto.
+  - (* link *) destruct (api_link (h_api h) tmpl new env) eqn:E; inversion H; subst; [|split; assumption].
+    split; [|exact FS]. eapply api_link_WF; eauto.
+  - (* unlink *) destruct (api_unlink (h_api h) i) as [[a p]|] eqn:E; inversion H; subst; [|split; assumption].
+    destruct (api_unlink_WF _ _ _ _ WA E) as [WA' G]. split; [exact WA'|].
+    cbn. apply Forall_app. split; [exact FS|constructor; [exact G|constructor]].
+  - (* remove_static *)
+    destruct (api_remove_static (h_api h) i) as [[a p]|] eqn:E; inversion H; subst; [|split; assumption].
+    destruct (api_remove_static_WF _ _ _ _ WA E) as [WA' G]. split; [exact WA'|].
+    cbn. apply Forall_app. split; [exact FS|constructor; [exact G|constructor]].
+  - (* remove_template *)
+    destruct (api_remove_template (h_api h) i) eqn:E; inversion H; subst; [|split; assumption].
+    split; [|exact FS]. eapply api_remove_template_WF; eauto.
+  - (* add_stashed *)
+    destruct (h_stash h) as [|p0 st] eqn:ES; [inversion H; subst; split; [assumption|rewrite ES; constructor]|].
+    rewrite <- ES in *.
+    destruct (api_add (h_api h) _) eqn:E in H; inversion H; subst; [|split; assumption].
+    split; [|exact FS]. eapply api_add_WF; [exact WA| |exact E].
+    apply nth_good; [exact FS|rewrite ES; left; reflexivity].
+Qed.
+
+Lemma api_history_Hinv ops : forall h,
+  Hinv h -> Forall no_merge ops -> Hinv (run_ops api_step ops h).
+Proof.
+  unfold run_ops. induction ops as [|o ops IH]; intros h HI F; cbn; [exact HI|].
+  inversion F; subst. apply IH; [|assumption].
+  destruct (api_step h o) as [h' r] eqn:E. cbn. eapply api_step_Hinv; eauto.
+Qed.
+
+(* ================================================================== core level *)
+Definition CoreInv (h : hstate) : Prop := WF (a_ast (h_api h)) /\ Forall good_policy (h_stash h).
+
+(* the operations on which ast::PolicySet keeps the invariant: no slot-less template is added as a
+   template, no link is made to a slot-less template (the body of a static policy), no template-linked
+   policy object is re-added through `add`, no merge (not proved) *)
+Definition core_ok (h : hstate) (o : op) : Prop :=
+  match o with
+  | OpAddTemplate t => t_is_static t = false
+  | OpLink tmpl _ _ => forall t, alookup tmpl (ps_templates (a_ast (h_api h))) = Some t -> t_is_static t = false
+  | OpAddStashed _ => forall p, In p (h_stash h) -> plink p = None
+  | OpMergeApi _ _ | OpMergeAst _ _ => False
+  | _ => True
+  end.
+
+Lemma ast_step_CoreInv h o h' r :
+  CoreInv h -> core_ok h o -> ast_step h o = (h', r) -> CoreInv h'.
+Proof.
+  intros [W FS] OK H. destruct o; cbn [ast_step] in H; cbn [core_ok] in OK; try contradiction.
+  - destruct (t_is_static t) eqn:St; [|inversion H; subst; split; assumption].
+    destruct (ps_add_static _ t) eqn:E; inversion H; subst; [|split; assumption].
+    split; [|exact FS]. cbn. eapply ps_add_static_WF; eauto.
+  - destruct (t_is_static t) eqn:St; [|inversion H; subst; split; assumption].
+    destruct (ps_add _ (static_of t)) eqn:E; inversion H; subst; [|split; assumption].
+    split; [|exact FS]. cbn. exact (ps_add_WF _ (static_of t) _ W eq_refl (good_static_of t St) E).
+  - destruct (ps_add_template _ t) eqn:E; inversion H; subst; [|split; assumption].
+    split; [|exact FS]. cbn. eapply ps_add_template_WF; eauto.
+  - destruct (ps_link _ tmpl new env) eqn:E; inversion H; subst; [|split; assumption].
+    split; [|exact FS]. cbn. eapply ps_link_WF; eauto.
+  - destruct (ps_unlink _ i) as [[a p]|] eqn:E; inversion H; subst; [|split; assumption].
+    split; [cbn; eapply ps_unlink_WF; eauto|].
+    cbn. apply Forall_app. split; [exact FS|constructor; [|constructor]].
+    unfold ps_unlink in E. destruct (amem i _); [discriminate|].
+    destruct (alookup i (ps_links _)) as [p0|] eqn:EL; [|discriminate].
+    destruct (alookup (tid (ptemplate p0)) _); [|discriminate]. inversion E; subst.
+    exact (proj2 (proj2 (wf_link _ W _ _ EL))).
+  - destruct (ps_remove_static _ i) as [[a p]|] eqn:E; inversion H; subst; [|split; assumption].
+    split; [cbn; eapply ps_remove_static_WF; eauto|].
+    cbn. apply Forall_app. split; [exact FS|constructor; [|constructor]].
+    unfold ps_remove_static in E. destruct (alookup i (ps_links _)) as [p0|] eqn:EL; [|discriminate].
+    destruct (amem i _); [|discriminate]. inversion E; subst.
+    exact (proj2 (proj2 (wf_link _ W _ _ EL))).
+  - destruct (ps_remove_template _ i) eqn:E; inversion H; subst; [|split; assumption].
+    split; [|exact FS]. cbn. eapply ps_remove_template_WF; eauto.
+  - destruct (h_stash h) as [|p0 st] eqn:ES; [inversion H; subst; split; [assumption|rewrite ES; constructor]|].
+    rewrite <- ES in *.
+    destruct (ps_add _ _) eqn:E in H; inversion H; subst; [|split; assumption].
+    split; [|exact FS]. cbn.
+    assert (Hin : In p0 (h_stash h)) by (rewrite ES; left; reflexivity).
+    eapply ps_add_WF; [exact W| | |exact E].
+    + apply OK. destruct (Nat.lt_ge_cases (Nat.modulo k (length (h_stash h))) (length (h_stash h))) as [Hlt|Hge].
+      * apply nth_In, Hlt.
+      * rewrite nth_overflow by exact Hge. exact Hin.
+    + apply nth_good; assumption.
+Qed.
+
+(* without the precondition the faithful model (and ast::PolicySet) loses the invariant:
+   add_static s; link s -> n (no slots, no values); remove_static s  leaves link n without its template *)
+Definition wit_s : template := mkTemplate [115%N] [] Permit CAny AAny CAny None.
+Definition wit_ops : list op := [OpAdd wit_s; OpLink [115%N] [110%N] []; OpRemoveStatic [115%N]].
+Lemma core_WF_refuted : ~ WF (a_ast (h_api (run_ops ast_step wit_ops empty_h))).
+Proof.
+  intros W.
+  assert (E : alookup [110%N] (ps_links (a_ast (h_api (run_ops ast_step wit_ops empty_h))))
+              = Some (mkPolicy wit_s (Some [110%N]) [])) by (vm_compute; reflexivity).
+  destruct (wf_link _ W _ _ E) as [_ [B _]]. vm_compute in B. discriminate B.
+Qed.
